@@ -419,3 +419,10 @@ Theorem gen_default_mask_fill_src_tie :
   (Gen_C20.default_mask_fill_src = C20_Collate.default_mask_fill)%string.
 Proof. exact C20_GenTie.default_mask_fill_src_tie. Qed.
 Print Assumptions gen_default_mask_fill_src_tie.
+
+(* ---------- class structure of the current source: overrides and attribute hooks (proofs/ClassesTie.v) ---------- *)
+Require Import ClassesTie.
+Theorem C20_tie_class_attr_hooks : Gen_Classes.attr_hooks = exp_attr_hooks.
+Proof. exact attr_hooks_tie. Qed.
+Print Assumptions C20_tie_class_attr_hooks.
+
